@@ -17,10 +17,48 @@ import (
 // C01 — looped output is one gap-free, wall-clock-anchored media timeline (engine T).
 
 type c01World struct {
-	VodRoot string `json:"vodroot"`
-	Asset   string `json:"asset"`
-	Cfg     URLCfg `json:"cfg"`
-	Rep     string `json:"rep"`
+	VodRoot string    `json:"vodroot"`
+	Gen     *GenWorld `json:"gen,omitempty"` // generated VoD world instead of the bundled assets
+	Asset   string    `json:"asset"`
+	Cfg     URLCfg    `json:"cfg"`
+	Rep     string    `json:"rep"`
+}
+
+// root returns the VoD root of the world (generating it if necessary).
+func (w c01World) root() string {
+	if w.Gen != nil {
+		return genRoot(*w.Gen)
+	}
+	return vodRootOf(w.VodRoot)
+}
+
+// c01PickWorld draws a bundled or generated asset that has a representation accepted by want.
+func c01PickWorld(rng *core.Rng, want func(a *refmodel.Asset, r *refmodel.Rep) bool) (c01World, *refmodel.Asset, []string) {
+	for {
+		var w c01World
+		var a *refmodel.Asset
+		if rng.Chance(0.4) {
+			g := pickGenWorld(rng)
+			w = c01World{VodRoot: "generated", Gen: g, Asset: g.Spec.Name}
+			a = refAssets(genRoot(*g))[g.Spec.Name]
+		} else {
+			ar := core.Pick(rng, bundledMPDs)
+			w = c01World{VodRoot: "bundled", Asset: ar.Asset}
+			a = refAssets(hx.BundledAssets)[ar.Asset]
+		}
+		if a == nil || a.Bad != "" {
+			continue
+		}
+		var reps []string
+		for _, id := range a.RepIDs() {
+			if want(a, a.Reps[id]) {
+				reps = append(reps, id)
+			}
+		}
+		if len(reps) > 0 {
+			return w, a, reps
+		}
+	}
 }
 
 type c01Op struct {
@@ -39,23 +77,7 @@ func (C01) ID() string     { return "C01" }
 func (C01) Engine() string { return "tlsim" }
 
 func (C01) Gen(rng *core.Rng, tier string, idx int) *core.Scenario {
-	assets := refAssets(hx.BundledAssets)
-	var ar assetRef
-	var a *refmodel.Asset
-	var reps []string
-	for {
-		ar = core.Pick(rng, bundledMPDs)
-		a = assets[ar.Asset]
-		reps = reps[:0]
-		for _, id := range a.RepIDs() {
-			if a.Reps[id].ContentType != "audio" {
-				reps = append(reps, id)
-			}
-		}
-		if len(reps) > 0 {
-			break
-		}
-	}
+	w, a, reps := c01PickWorld(rng, func(a *refmodel.Asset, r *refmodel.Rep) bool { return r.ContentType != "audio" })
 	repID := core.Pick(rng, reps)
 	rep := a.Reps[repID]
 	base := int64(1_600_000_000_000) + rng.Int63n(300_000_000_000)
@@ -66,12 +88,16 @@ func (C01) Gen(rng *core.Rng, tier string, idx int) *core.Scenario {
 		// far from epoch, but segment numbers must still fit the 32-bit mfhd sequence number
 		base = int64(1)<<40 + rng.Int63n(int64(1)<<41)
 	}
+	// segment numbers must fit the 32-bit mfhd sequence number (short generated segments!)
+	if maxBase := int64(1<<31) * a.SegDurMS; base > maxBase {
+		base = rng.Int63n(maxBase)
+	}
 	cfg := genTimelineCfg(rng, a, base)
 	cfg.Ato = "" // availability instants are C04's business
 	if rep.ContentType == "image" && cfg.MPDType == "timeline" && rng.Bool() {
 		cfg.MPDType = "timelinenr"
 	}
-	w := c01World{VodRoot: "bundled", Asset: ar.Asset, Cfg: cfg, Rep: repID}
+	w.Cfg, w.Rep = cfg, repID
 	sc := core.NewScenario("C01", "tlsim", 0, tier, w)
 	N := int64(len(rep.Segs))
 	rel := base - cfg.AST()*1000
@@ -194,14 +220,14 @@ func (C01) Run(t *testing.T, sc *core.Scenario, res *core.Result) {
 	if err != nil {
 		panic(err)
 	}
-	root := vodRootOf(w.VodRoot)
+	root := w.root()
 	a := refAssets(root)[w.Asset]
 	if a == nil || a.Reps[w.Rep] == nil {
 		panic("harness: unknown asset/rep")
 	}
 	rep := a.Reps[w.Rep]
 	cfg := w.Cfg
-	feat := merge(cfg.Features(a), assetTraits(a), core.Sig("content", rep.ContentType))
+	feat := merge(cfg.Features(a), assetTraits(a), core.Sig("content", rep.ContentType, "world", w.VodRoot))
 	N := int64(len(rep.Segs))
 	var in *hx.Init
 	if rep.ContentType != "image" {
